@@ -3,6 +3,9 @@ import PoxModel.Proofs.Lldp
 import PoxModel.Proofs.Gre
 import PoxModel.Proofs.Igmp3
 import PoxModel.Proofs.PacketExtChain
+import PoxModel.Proofs.PacketExtValid
+import PoxModel.Proofs.Ndp
+import PoxModel.Proofs.Dhcp
 /-!
 # C14 — packet headers survive build → bytes → parse with valid lengths and checksums
 
@@ -403,8 +406,10 @@ traffic class, flow label, next header, hop limit, both addresses, and the exact
 theorem ipv6_hdr (next : XNext) (h : IPv6) (payload : Bytes) (hf : h.Fits) (hn : payload.length < 65536) :
     ∃ h' bs, ipv6Hdr h payload.length = .ok (h', bs) ∧ bs.length = 40 ∧ beDec (sl bs 4 6) = payload.length ∧
       h' = { h with plen := payload.length } ∧
-      ipv6Parse next (bs ++ payload) = .ipv6 h' (ipv6Next next h payload) :=
-  ⟨_, _, ipv6Hdr_ok h _ hf hn, ipv6Bytes_length h _ hf, ipv6_len_field h _ hn, rfl, ipv6_parse next h payload hf hn⟩
+      ipv6Parse next (bs ++ payload) = .ipv6 h' (ipv6Next next h payload) ∧
+      ipv6Hdr h' payload.length = .ok (h', bs) :=
+  ⟨_, _, ipv6Hdr_ok h _ hf hn, ipv6Bytes_length h _ hf, ipv6_len_field h _ hn, rfl, ipv6_parse next h payload hf hn,
+    by rw [ipv6Hdr_idem, ipv6Hdr_ok h _ hf hn]⟩
 
 /-- UDP over IPv6: length field and RFC 1071 checksum over the 40-byte pseudo header (RFC 8200 §8.1), 0 sent as 0xffff -/
 theorem udp6_hdr (src dst : Bytes) (nh : Nat) (h : Udp) (payload : Bytes) (hs : src.length = 16) (hd : dst.length = 16)
@@ -444,8 +449,10 @@ theorem icmp6_roundtrip (next : XNext) (src dst : Bytes) (nh : Nat) (h : Icmp) (
     (hd : dst.length = 16) (hf : h.Fits) (hp : icmp6Plain h) (hn : payload.length + 4 ≤ 131000) :
     ∃ h' bs, icmp6Hdr src dst h payload = .ok (h', bs) ∧
       icmp6Parse (some (.v6 src dst nh)) next (bs ++ payload)
-        = .icmp6 h' (if h.type = 128 ∨ h.type = 129 then next none .echo6 payload else .raw payload) :=
-  ⟨_, _, icmp6Hdr_ok src dst h payload hs hd hf hn, icmp6_parse next src dst nh h payload hs hd hf hp hn⟩
+        = .icmp6 h' (if h.type = 128 ∨ h.type = 129 then next none .echo6 payload else .raw payload) ∧
+      icmp6Hdr src dst h' payload = .ok (h', bs) :=
+  ⟨_, _, icmp6Hdr_ok src dst h payload hs hd hf hn, icmp6_parse next src dst nh h payload hs hd hf hp hn,
+    by rw [icmp6Hdr_idem, icmp6Hdr_ok src dst h payload hs hd hf hn]⟩
 
 theorem echo6_roundtrip (h : Echo) (payload : Bytes) (hf : h.Fits) :
     ∃ bs, echoHdr h = .ok bs ∧ echo6Parse (bs ++ payload) = .echo6 h (.raw payload) :=
@@ -473,8 +480,9 @@ theorem gre_hdr (h : Gre) (payload : Bytes) (hf : h.Fits) (hc : h.csum = .comput
   rw [this, be16, beDec_beEnc 2 _ hlt]
 
 theorem gre_roundtrip (next : XNext) (h : Gre) (payload : Bytes) (hf : h.Fits) (hn : payload.length + 16 ≤ 131072) :
-    ∃ h' bs, greHdr h payload = .ok (h', bs) ∧ greParse next (bs ++ payload) = .gre h' (greNext next h payload) :=
-  ⟨_, _, greHdr_ok h payload hf hn, gre_parse next h payload hf⟩
+    ∃ h' bs, greHdr h payload = .ok (h', bs) ∧ greParse next (bs ++ payload) = .gre h' (greNext next h payload) ∧
+      greHdr h' payload = .ok (h', bs) :=
+  ⟨_, _, greHdr_ok h payload hf hn, gre_parse next h payload hf, greHdr_idem h payload hf hn⟩
 
 /-! ## VXLAN (vxlan.py) -/
 
@@ -492,13 +500,15 @@ example : (⟨some 0xabcdef⟩ : Vxlan).Fits ∧ (⟨none⟩ : Vxlan).Fits := by
 /-- v1/v2 messages: the checksum is RFC 1071 of the message and verifies; `igmp.parse` (which re-computes and compares
 it) accepts the message and returns type, response time, group address and trailing bytes -/
 theorem igmp_v2 (h : Igmp) (a : Nat) (hf : h.Fits2 a) :
-    ∃ h' bs, igmpHdr h = .ok (h', bs) ∧ h'.csum = igmp2CsumSpec h a ∧ rfc1071 bs = 0 ∧ igmpParse bs = .igmp h' :=
-  ⟨_, _, igmpHdr_v2_ok h a hf, rfl, igmp2_verifies h a, igmp_v2_parse h a hf⟩
+    ∃ h' bs, igmpHdr h = .ok (h', bs) ∧ h'.csum = igmp2CsumSpec h a ∧ rfc1071 bs = 0 ∧ igmpParse bs = .igmp h' ∧
+      igmpHdr h' = .ok (h', bs) :=
+  ⟨_, _, igmpHdr_v2_ok h a hf, rfl, igmp2_verifies h a, igmp_v2_parse h a hf, by rw [igmpHdr_idem, igmpHdr_v2_ok h a hf]⟩
 
 /-- v3 membership reports with any list of group records (record type, group, source list, auxiliary data) -/
 theorem igmp_v3 (h : Igmp) (hf : h.Fits3) :
-    ∃ h' bs, igmpHdr h = .ok (h', bs) ∧ h'.csum = igmp3CsumSpec h ∧ rfc1071 bs = 0 ∧ igmpParse bs = .igmp h' :=
-  ⟨_, _, igmpHdr_v3_ok h hf, rfl, igmp3_verifies h, igmp_v3_parse h hf⟩
+    ∃ h' bs, igmpHdr h = .ok (h', bs) ∧ h'.csum = igmp3CsumSpec h ∧ rfc1071 bs = 0 ∧ igmpParse bs = .igmp h' ∧
+      igmpHdr h' = .ok (h', bs) :=
+  ⟨_, _, igmpHdr_v3_ok h hf, rfl, igmp3_verifies h, igmp_v3_parse h hf, by rw [igmpHdr_idem, igmpHdr_v3_ok h hf]⟩
 
 example : (⟨0x16, 0, 0, some 0xe0000116, [], []⟩ : Igmp).Fits2 0xe0000116 := by constructor <;> simp
 example : (⟨0x22, 0, 0, none, [⟨1, 0xe0000116, [0x0a000001, 0x0a000002], []⟩], []⟩ : Igmp).Fits3 := by
@@ -601,5 +611,162 @@ example : ([1, 0x61] : Bytes) ≠ [] → (1 : Nat) = 1 ∨ (1 : Nat) = 2 := fun 
 theorem variant_head (raw : Bytes) : ripParseV XCfg.head.ripUnsigned raw = ripParse raw ∧
     eapParseV XCfg.head.eapBody raw = eapParse raw ∧ ∀ h, ripHdrV XCfg.head.ripUnsigned h = ripHdr h :=
   ⟨rfl, rfl, fun _ => rfl⟩
+
+/-! ## whole-chain validity: the pseudo header comes from the emitted IP header -/
+
+/-- **`chain_valid`.**  Whatever `pack()` emits for a well-formed chain is valid for a receiver that looks only at the
+bytes: every IPv4 header sums to zero and its total-length field is the datagram's length; every UDP/TCP checksum is
+RFC 1071 over the pseudo header built from the **enclosing IPv4 header as emitted** (source, destination, protocol read
+from the bytes, `ctxOfWire`), the segment length and the segment with its checksum word zeroed; UDP length and TCP data
+offset are exact; every ICMP message sums to zero — at every nesting level (VLAN tags, datagrams quoted in ICMP errors).
+This is where "`pack` passes the enclosing header's addresses and protocol to `udp.checksum`/`tcp.checksum`" is proved. -/
+theorem chain_valid (p : Pkt) (bs : Bytes) (hg : Good none p) (hp : pack none p = .ok bs) : Valid none p bs :=
+  chain_valid' p bs hg hp
+
+example : ∃ bs, pack none exChain1 = .ok bs := by
+  obtain ⟨bs, h, _⟩ := repack_id exChain1 .eth rfl (by
+    refine ⟨by constructor <;> decide, by simp [EthCompat], ⟨exVlan_fits, by simp [EthCompat, exVlan],
+      ⟨exIp_fits, by simp [IpCompat, exIp], ?_, by simp [plen, exIp]⟩⟩⟩
+    exact ⟨⟨_, rfl, by constructor <;> decide⟩, exUdp_fits, by unfold udpPlain; decide, trivial, by simp [plen]⟩)
+  exact ⟨bs, h⟩
+
+/-- the same over IPv6 (extended model): `ethernet/ipv6/udp`, `…/tcp`, `…/icmpv6` pack to a 40-byte IPv6 header whose
+payload-length field is the segment's length and a segment whose checksum is RFC 1071 over the pseudo header built from
+the **emitted IPv6 header** (addresses and next header read from the bytes; 58 for ICMPv6) -/
+theorem xpack_ipv6_udp_valid (cfg : XCfg) (e : Eth) (h : IPv6) (u : Udp) (b : Bytes) (he : e.Fits) (hf : h.Fits)
+    (hu : u.Fits) (hn : b.length + 8 < 65536) :
+    ∃ ip6 seg, xpack cfg none (.eth e (.ipv6 h (.udp u (.raw b)))) = .ok (ethBytes e ++ (ip6 ++ seg)) ∧ ip6.length = 40 ∧
+      beDec (sl ip6 4 6) = seg.length ∧ beDec (sl seg 4 6) = seg.length ∧
+      beDec (sl seg 6 8) =
+        (let r := rfc1071 (pseudo6 (sl ip6 8 24) (sl ip6 24 40) seg.length (beDec (sl ip6 6 7)) ++ zeroWord 3 seg)
+         if r = 0 then 65535 else r) :=
+  Pox.Packet.xpack_ipv6_udp_valid cfg e h u b he hf hu hn
+
+theorem xpack_ipv6_tcp_valid (cfg : XCfg) (e : Eth) (h : IPv6) (t : Tcp) (b : Bytes) (he : e.Fits) (hf : h.Fits)
+    (ht : t.Fits) (hok : ∀ o ∈ t.opts, o.OK) (hol : (optsPadded t.opts).length ≤ 40)
+    (hn : 20 + (optsPadded t.opts).length + b.length < 65536) :
+    ∃ ip6 seg, xpack cfg none (.eth e (.ipv6 h (.tcp t (.raw b)))) = .ok (ethBytes e ++ (ip6 ++ seg)) ∧ ip6.length = 40 ∧
+      beDec (sl ip6 4 6) = seg.length ∧
+      beDec (sl seg 16 18) = rfc1071 (pseudo6 (sl ip6 8 24) (sl ip6 24 40) seg.length (beDec (sl ip6 6 7)) ++ zeroWord 8 seg) :=
+  Pox.Packet.xpack_ipv6_tcp_valid cfg e h t b he hf ht hok hol hn
+
+theorem xpack_ipv6_icmp6_valid (cfg : XCfg) (e : Eth) (h : IPv6) (i : Icmp) (b : Bytes) (he : e.Fits) (hf : h.Fits)
+    (hi : i.Fits) (hn : b.length + 4 < 65536) :
+    ∃ ip6 seg, xpack cfg none (.eth e (.ipv6 h (.icmp6 i (.raw b)))) = .ok (ethBytes e ++ (ip6 ++ seg)) ∧ ip6.length = 40 ∧
+      beDec (sl ip6 4 6) = seg.length ∧
+      beDec (sl seg 2 4) = rfc1071 (pseudo6 (sl ip6 8 24) (sl ip6 24 40) seg.length 58 ++ zeroWord 1 seg) :=
+  Pox.Packet.xpack_ipv6_icmp6_valid cfg e h i b he hf hi hn
+
+example : ({ exEth with type := 0x86dd } : Eth).Fits ∧ exIp6.Fits ∧ exUdp.Fits :=
+  ⟨by constructor <;> decide, exIp6_fits, exUdp_fits⟩
+
+/-! ## a composed phase-2 frame -/
+
+/-- VXLAN-encapsulated ARP: Ethernet / IPv4 / UDP(4789) / VXLAN / Ethernet / ARP (+ padding), six layers through the
+original and the phase-2 parsers: pack, parse (same fields, computed IPv4/UDP fields filled in), re-pack -/
+theorem vxlan_arp_frame (cfg : XCfg) (e1 : Eth) (ip : IPv4) (u : Udp) (vx : Vxlan) (e2 : Eth) (a : Arp) (pad : Bytes)
+    (he1 : e1.Fits) (ht1 : e1.type = 0x0800) (hip : ip.Fits) (hfr : ip.frag = 0) (hpr : ip.proto = 17) (hu : u.Fits)
+    (hsel : udpSel u = some "vxlan") (hvx : vx.Fits) (he2 : e2.Fits) (ht2 : e2.type = 0x0806) (ha : a.Fits)
+    (hsz : 4 * ip.hl + 58 + pad.length < 65536) :
+    ∃ ip' u' bs,
+      xpack cfg none (.eth e1 (.ipv4 ip (.udp u (.vxlan vx (.eth e2 (.arp a (.raw pad))))))) = .ok bs ∧
+      xparseTop cfg (.core .eth) bs = .eth e1 (.ipv4 ip' (.udp u' (.vxlan vx (.eth e2 (.arp a (.raw pad)))))) ∧
+      xpack cfg none (.eth e1 (.ipv4 ip' (.udp u' (.vxlan vx (.eth e2 (.arp a (.raw pad))))))) = .ok bs :=
+  Pox.Packet.vxlan_arp_frame cfg e1 ip u vx e2 a pad he1 ht1 hip hfr hpr hu hsel hvx he2 ht2 ha hsz
+
+example : exEth.type = 0x0800 ∧ ({ exIp with proto := 17 } : IPv4).frag = 0 ∧ udpSel ⟨50000, 4789, 0, 0⟩ = some "vxlan" ∧
+    ({ exEth with type := 0x0806 } : Eth).type = 0x0806 ∧ exArp.Fits := ⟨rfl, rfl, by decide, rfl, exArp_fits⟩
+
+/-! ## ICMPv6 Neighbor Discovery and error messages (icmpv6.py after repair D47) -/
+
+/-- `icmpv6.parse` for every message type: checksum verified against the enclosing IPv6 header, fields returned, the body
+handed to the class `_type_to_class` names (the NDP classes get the whole message and start at offset 4) -/
+theorem icmp6_dispatch (next : XNext) (src dst : Bytes) (nh : Nat) (h : Icmp) (payload : Bytes) (hs : src.length = 16)
+    (hd : dst.length = 16) (hf : h.Fits) (hn : payload.length + 4 ≤ 131000) :
+    ∃ h' bs, icmp6Hdr src dst h payload = .ok (h', bs) ∧
+      icmp6Parse (some (.v6 src dst nh)) next (bs ++ payload) = .icmp6 h' (icmp6Next next h (bs ++ payload) payload) :=
+  ⟨_, _, icmp6Hdr_ok src dst h payload hs hd hf hn, icmp6_parse_any next src dst nh h payload hs hd hf hn⟩
+
+/-- one NDP option on the wire: type, length in units of eight octets, body; the length octet times eight is the size -/
+theorem nd_option_length (o : NdOpt) (h : o.OK) :
+    ndOptPack o = .ok (ndOptBytes o) ∧ (ndOptBytes o).length = 8 * (((ndBodyBytes o).length + 2) / 8) ∧
+      (ndOptBytes o).length ≤ 2040 := by
+  obtain ⟨h8, _, hl⟩ := ndBody_len o h
+  refine ⟨ndOptPack_ok o h, ?_, ?_⟩ <;> rw [ndOptBytes_length] <;> omega
+
+/-- the option list of an NDP message: what `_parse_ndp_options` reads is what `_pack_ndp_options`-style packing wrote -/
+theorem nd_options_roundtrip (os : List NdOpt) (hok : ∀ o ∈ os, o.OK) (A : Bytes) :
+    ∃ bs, ndOptsPack os = .ok bs ∧ ndOptsParse ((A ++ bs).length + 1) (A ++ bs) A.length = some os :=
+  ⟨_, ndOptsPack_ok os hok, ndOptsParse_rt os hok A _ (by have := (ndOptsBytes_mod8 os hok).2; simp; omega)⟩
+
+/-- **NDP round trip** (router solicitation/advertisement, neighbor solicitation/advertisement, each with its options):
+the message packs; inside ICMPv6 — with the checksum over the IPv6 pseudo header — it parses back to the same message,
+flags, target and every option included; re-packing the parsed header gives the same bytes -/
+theorem ndp_roundtrip (cfg : XCfg) (fuel : Nat) (src dst : Bytes) (nh : Nat) (h : Icmp) (m : NdMsg) (hs : src.length = 16)
+    (hd : dst.length = 16) (hc : h.code < 256) (ht : h.type = ndMsgType m) (hm : m.Fits)
+    (hn : (ndMsgBytes m).length + 4 ≤ 131000) :
+    ∃ body h' bs, ndMsgPack m = .ok body ∧ icmp6Hdr src dst h body = .ok (h', bs) ∧
+      icmp6Parse (some (.v6 src dst nh)) (xparse cfg (fuel + 1)) (bs ++ body) = .icmp6 h' (.nd m) ∧
+      h'.csum = rfc1071 (pseudo6 src dst (body.length + 4) 58 ++ (beEnc 1 h.type ++ beEnc 1 h.code ++ 0 :: 0 :: body)) ∧
+      icmp6Hdr src dst h' body = .ok (h', bs) := by
+  have htl : h.type < 256 := by rw [ht]; cases m <;> simp [ndMsgType]
+  have hf : h.Fits := ⟨htl, hc⟩
+  have h4 : (icmp6Bytes src dst h (ndMsgBytes m)).length = 4 := by simp [icmp6Bytes, icmpPre]
+  refine ⟨_, _, _, ndMsgPack_ok m hm, icmp6Hdr_ok src dst h _ hs hd hf hn, ?_, rfl,
+    by rw [icmp6Hdr_idem, icmp6Hdr_ok src dst h _ hs hd hf hn]⟩
+  rw [icmp6_parse_any _ src dst nh h _ hs hd hf hn]
+  have hty : h.type = 133 ∨ h.type = 134 ∨ h.type = 135 ∨ h.type = 136 := by rw [ht]; cases m <;> simp [ndMsgType]
+  have hne : ¬ (h.type = 128 ∨ h.type = 129) := by omega
+  simp only [icmp6Next, if_neg hne, if_pos hty]
+  show XPkt.icmp6 _ (ndParse h.type _) = _
+  rw [ht, nd_parse m _ hm h4]
+
+def exNa : NdMsg := .na true true false (0xfe :: 0x80 :: List.replicate 13 0 ++ [1])
+  [.lla 2 [2, 0, 0, 0, 0, 1], .prefix 64 true true 86400 14400 (0x20 :: 0x01 :: List.replicate 14 0), .mtu 1500,
+   .generic 14 [1, 2, 3, 4, 5, 6]]
+
+example : exNa.Fits ∧ ndMsgType exNa = 136 :=
+  ⟨⟨by intro o ho; simp [exNa, NdMsg.opts] at ho; rcases ho with h | h | h | h <;> subst h <;> simp [NdOpt.OK], by simp [exNa]⟩,
+   rfl⟩
+example : (NdMsg.ra 64 true false 1800 0 0 [.mtu 1500]).Fits :=
+  ⟨by intro o ho; simp [NdMsg.opts] at ho; subst ho; simp [NdOpt.OK], by simp⟩
+
+/-- ICMPv6 errors: packet-too-big (MTU + quoted packet), time-exceeded (unused word + quote), destination-unreachable
+(unused word + quote; a quote of at least 44 bytes is parsed as the offending IPv6 packet, a shorter one stays opaque) -/
+theorem icmp6_errors_roundtrip (next : XNext) (w : Nat) (q : Bytes) (h : w < 4294967296) :
+    toobig6Parse (beEnc 4 w ++ q) = .toobig6 w (.raw q) ∧ timeex6Parse ([0, 0, 0, 0] ++ q) = .timeex6 (.raw q) ∧
+      (q.length < 44 → unreach6Parse next (beEnc 4 w ++ q) = .unreach6 w (.raw q)) :=
+  ⟨toobig6_parse w q h, timeex6_parse q, unreach6_parse next w q h⟩
+
+/-! ## DHCP (dhcp.py after repair D45) -/
+
+/-- **DHCP option round trip**: the option dictionary packs to code/length/value parts (PAD octet after an odd part, END
+at the end); a value longer than 255 bytes is split into parts of at most 255 (RFC 3396); `parseOptionSegment` returns the
+same dictionary, long values concatenated again, and ignores what follows END -/
+theorem dhcp_options_roundtrip (opts : List (Nat × Bytes)) (hok : DhcpOptsOK opts) (T : Bytes) :
+    ∃ bs, dhcpPackOpts opts = .ok bs ∧ dhcpParseSeg ((bs ++ T).length + 1) (bs ++ T) 0 [] = opts := by
+  refine ⟨_, dhcpPackOpts_ok opts hok, ?_⟩
+  have := dhcp_opts_rt opts hok T ((dhcpOptsBody opts ++ [255] ++ T).length + 1) (by simp)
+  simpa [List.append_assoc] using this
+
+/-- **DHCP message round trip**: all fixed fields, `chaddr`, `sname`, `file`, the magic cookie and the options; the parsed
+object differs from the built one only in `_raw_options`; packing it again gives the same bytes -/
+theorem dhcp_roundtrip (h : Dhcp) (hf : h.Fits) :
+    ∃ h' bs, dhcpHdr h = .ok (h', bs) ∧ dhcpParse bs = .dhcp h' ∧ h' = { h with rawOpts := h'.rawOpts } ∧
+      dhcpHdr h' = .ok (h', bs) := by
+  have hf' : ({ h with rawOpts := dhcpOptsBody h.opts ++ [255] } : Dhcp).Fits :=
+    ⟨hf.op, hf.htype, hf.hlen, hf.hops, hf.xid, hf.secs, hf.flags, hf.ciaddr, hf.yiaddr, hf.siaddr, hf.giaddr, hf.chaddr,
+     hf.chaddr6, hf.sname, hf.file, hf.magic, hf.opts, hf.some⟩
+  refine ⟨_, _, dhcpHdr_ok h hf, dhcp_parse h hf, rfl, ?_⟩
+  have := dhcpHdr_ok _ hf'
+  simpa [dhcpBytes, dhcpNumBytes] using this
+
+def exDhcp : Dhcp :=
+  ⟨1, 1, 6, 0, 0x3903f326, 0, 0x8000, 0, 0, 0, 0, [0, 0x0b, 0x82, 1, 0xfc, 0x42] ++ List.replicate 10 0, List.replicate 64 0,
+   List.replicate 128 0, DHCP_MAGIC, [(53, [1]), (61, [1, 0, 0x0b, 0x82, 1, 0xfc, 0x42]), (55, [1, 3, 6, 42]),
+   (43, List.replicate 300 7)], []⟩
+
+example : exDhcp.Fits := by
+  constructor <;> first | decide | exact ⟨by decide, by decide⟩
 
 end Pox.C14
